@@ -162,6 +162,17 @@ def run_case(case, ctx):
                     pass
                 del rec.calls[:]
             x_arg = laid_out(x) if shape else float(x)
+            if shape and case['seed'] % 4 == 1:
+                # the same object was called before with this very array, when it held other points (of other magnitudes):
+                # the caller updates the array in place between the calls
+                ctx.count('same_array_updated_in_place_between_calls')
+                x_arg[...] = x * 37.5 + 0.25
+                try:
+                    d(x_arg, *args, **kwds)
+                except Exception:
+                    pass
+                x_arg[...] = x
+                del rec.calls[:]
             out, info = d(x_arg, *args, **kwds)
             if shape:
                 ctx.count('callers_array_unchanged_asserted')
